@@ -260,6 +260,17 @@ func checkCase(c Case) error {
 		defer func() { time.Local = saved }()
 		hx.Class("process_time_zone_not_utc")
 	}
+	// "any certificate": one case in five signs with a certificate on the same key, names and serial that expired a
+	// year ago or becomes valid next year (what db and KEK certificates on real machines often are). go.mozilla.org/pkcs7
+	// insists that the certificate be valid at the signing time - its policy, not a property of the SignedData - and is
+	// left out for these; everything else, the library's own verification included, is asked as usual
+	outOfValidity := false
+	if k := len(c.Content) % 5; (k == 2 || k == 4) && id.Key >= 0 {
+		if id2, verr := gen.WithValidity(id, k/2); verr == nil {
+			id, outOfValidity = id2, true
+			hx.Class("certificate_outside_its_validity_period")
+		}
+	}
 	var blob []byte
 	imgAlg := crypto.SHA256
 	if c.ImgAlg != 0 {
@@ -350,13 +361,15 @@ func checkCase(c Case) error {
 		tampered = []byte{0}
 	}
 	// (2) go.mozilla.org/pkcs7
-	if err := mozillaVerify(blob, content, detached); err != nil {
-		return fmt.Errorf("go.mozilla.org/pkcs7 rejects the produced signature (oid %v, %d content bytes): %v", c.OID, len(content), err)
-	}
-	hx.Class("mozilla_accepts")
-	if detached {
-		if mozillaVerify(blob, tampered, true) == nil {
-			return fmt.Errorf("go.mozilla.org/pkcs7 accepts the produced signature over different content")
+	if !outOfValidity {
+		if err := mozillaVerify(blob, content, detached); err != nil {
+			return fmt.Errorf("go.mozilla.org/pkcs7 rejects the produced signature (oid %v, %d content bytes): %v", c.OID, len(content), err)
+		}
+		hx.Class("mozilla_accepts")
+		if detached {
+			if mozillaVerify(blob, tampered, true) == nil {
+				return fmt.Errorf("go.mozilla.org/pkcs7 accepts the produced signature over different content")
+			}
 		}
 	}
 	// reference verifier accepts and rejects
